@@ -175,7 +175,7 @@ def parse_cbmc_json(txt):
     return props, status, msgs
 
 
-def nondet_values(trace):
+def nondet_values(trace, with_irm=False):
     vals = []
     for s in trace or []:
         if s.get('stepType') != 'assignment' or s.get('hidden'):
@@ -184,7 +184,7 @@ def nondet_values(trace):
         m = re.match(r'return_value_nondet_(\w+?)(\$\d+)?$', lhs) or re.match(r'nd_log_(\w+)$', lhs)
         if not m:
             continue
-        if m.group(1).startswith('irm_'):
+        if m.group(1).startswith('irm_') and not with_irm:
             continue   # values of the libm envelope stubs: natively libm itself is used
         v = s.get('value', {})
         b = v.get('binary')
